@@ -75,6 +75,39 @@ pub fn run(text: &str) {
                     None => println!("K {} ERR", name),
                 }
             }
+            "mvan" => {
+                let n: usize = t[3].parse().unwrap();
+                let d: u64 = t[4].parse().unwrap();
+                match verif::matches_vanishing_over_coset(n, d, &scalars(&t[5..])) {
+                    Some(r) => println!("K {} {}", name, r),
+                    None => println!("K {} ERR", name),
+                }
+            }
+            "mlin" => {
+                let n: usize = t[3].parse().unwrap();
+                match verif::matches_linear_over_coset(n, &scalars(&t[4..])) {
+                    Some(r) => println!("K {} {}", name, r),
+                    None => println!("K {} ERR", name),
+                }
+            }
+            "elems" => {
+                let n: usize = t[3].parse().unwrap();
+                match verif::domain_elements(n) {
+                    Some(r) => out(name, &r),
+                    None => println!("K {} ERR", name),
+                }
+            }
+            "interp" => {
+                let n: usize = t[3].parse().unwrap();
+                match verif::interpolate(n, &scalars(&t[4..])) {
+                    Some(r) => out(name, &trim(r)),
+                    None => println!("K {} ERR", name),
+                }
+            }
+            "pows" => {
+                let d: usize = t[4].parse().unwrap();
+                out(name, &verif::powers_of(fr_of_hex(t[3]), d))
+            }
             "bary" => {
                 let n: usize = t[3].parse().unwrap();
                 let p = fr_of_hex(t[4]);
